@@ -422,6 +422,8 @@ def run_config(config, scn, ch, document=None, fast=False):
         root=RootMethods(world) if scn.get("root") == "methods" else ROOT,
         context=world,
     )
+    if scn.get("disable_introspection"):
+        kwargs["disable_introspection"] = True
     k, m = scn.get("instr", 0), scn.get("mw", 0)
     if k:
         kwargs["instrumentation"] = _instr(world, k, scn.get("instr_nested", False))
@@ -489,7 +491,7 @@ def run_config(config, scn, ch, document=None, fast=False):
         from py_gql import graphql_blocking
 
         schema = schema_for(custom, False, scn.get("sdl", "full"))
-        kw = {k_: v_ for k_, v_ in kwargs.items() if k_ != "runtime"}
+        kw = {k_: v_ for k_, v_ in kwargs.items() if k_ not in ("runtime", "disable_introspection")}
         try:
             status, value = "ok", graphql_blocking(schema, doc, **kw)
         except Exception as e:  # noqa
@@ -500,7 +502,7 @@ def run_config(config, scn, ch, document=None, fast=False):
         schema = schema_for(custom, True, scn.get("sdl", "full"))
         loop = VLoop()
         world.loop = loop
-        kw = {k_: v_ for k_, v_ in kwargs.items() if k_ != "runtime"}
+        kw = {k_: v_ for k_, v_ in kwargs.items() if k_ not in ("runtime", "disable_introspection")}
 
         async def main2():
             return await graphql_async(schema, doc, **kw)
